@@ -40,6 +40,13 @@ def predict(scopes, M):
     R = []
     for s in scopes:
         kind, names = s["kind"], [n for n in s["names"] if n in M]
+        if kind in ("ifaces", "pkgns", "pkgname", "world"):      # namespace components
+            for n in names:
+                cid = M[n]["c"]
+                if cid in HELPER_NAMESPACES:
+                    R.append({"reason": "cpp-namespace-shadows-helper-namespace", "ident": cid, "names": [n], "scope": s["owner"]})
+                if cid in RUNTIME_SYMBOLS:
+                    R.append({"reason": "cpp-namespace-clashes-with-runtime-symbol", "ident": cid, "names": [n], "scope": s["owner"]})
         if kind in ("pkgname",): continue
         snake_pos = kind in ("params", "fields", "ifaces", "pkgns", "world")
         if snake_pos:
@@ -74,6 +81,11 @@ def predict(scopes, M):
 # <cstddef>/<cstdint> typedef names the generated code uses unqualified inside function bodies
 STD_TYPEDEFS = {"size_t", "uint8_t", "int8_t", "uint16_t", "int16_t", "uint32_t", "int32_t", "uint64_t", "int64_t", "uintptr_t", "intptr_t", "ptrdiff_t"}
 
+# namespaces the generated code names without a leading `::` (`wit::string`, `std::variant`): a namespace component of
+# that name, enclosing the use, captures them
+HELPER_NAMESPACES = {"wit", "std"}
+# extern "C" symbols the generated translation unit declares at global scope
+RUNTIME_SYMBOLS = {"cabi_realloc"}
 # object-like macros of the C library headers the generated code includes (to_c_ident escapes stdin/stdout/stderr only)
 LIBC_MACROS = {"errno"}
 
@@ -124,9 +136,10 @@ def explain(diag, reasons):
     identifier (in its message or in the source line it points at)"""
     msg = diag["message"]
     for kind, pat in (("keyword", None),
-                      ("dup", r"redeclar|redefin|conflicting|duplicate|ambiguous|overloaded|previous"),
+                      ("dup", r"redeclar|redefin|conflicting|duplicate|ambiguous|ambiguating|overloaded|previous"),
                       ("cpp-std-typedef-shadow", None), ("cpp-libc-macro-name", None), ("cpp-temp-clash", None),
-                      ("cpp-qualify-enclosing-namespace-member", None), ("cpp-param-named-self", None)):
+                      ("cpp-qualify-enclosing-namespace-member", None), ("cpp-param-named-self", None),
+                      ("cpp-namespace-shadows-helper-namespace", None), ("cpp-namespace-clashes-with-runtime-symbol", None)):
         for r in reasons:
             if kind == "keyword":
                 if "keyword" not in r["reason"]: continue
